@@ -119,6 +119,7 @@ class TapSocket(object):
         return self._sock.fileno()
 
     def connect(self, address):
+        self.peer_address = address
         return self._sock.connect(address)
 
     def __getattr__(self, name):
